@@ -440,7 +440,15 @@ func checkAdsConstructor(r *Reporter, p *Prog) {
 	news := f.Calls(isCallTo("smt.NewSparseMerkleTrie"))
 	rootGets := f.Calls(func(c *ast.CallExpr) bool {
 		se, ok := ast.Unparen(c.Fun).(*ast.SelectorExpr)
-		return ok && se.Sel.Name == "Get" && fieldSel(info, se.X, "root")
+		if !ok || se.Sel.Name != "Get" || len(c.Args) != 0 {
+			return false
+		}
+		if fieldSel(info, se.X, "root") {
+			return true
+		}
+		// the root value handed to a helper
+		cpt, okp := f.PointOf(c)
+		return okp && strings.HasSuffix(f.KeyAt(se.X, cpt), ".root")
 	})
 	key := "ads.newAuthenticatedMap"
 	if len(imports) != 1 || len(news) != 1 || len(rootGets) != 1 {
@@ -459,6 +467,9 @@ func checkAdsConstructor(r *Reporter, p *Prog) {
 					if as, found := f.lastAssignBefore(ipt.B, ipt.I, info.Uses[id]); found && len(as.Rhs) == 1 && ast.Unparen(as.Rhs[0]) == ast.Expr(rootGets[0]) {
 						okRoot = true
 					}
+					if re, _ := f.Resolve(id, ipt); ast.Unparen(re) == ast.Expr(rootGets[0]) {
+						okRoot = true
+					}
 					if dc := definingCall(info, fd.Body, id); dc == rootGets[0] {
 						okRoot = true
 					}
@@ -466,7 +477,7 @@ func checkAdsConstructor(r *Reporter, p *Prog) {
 				return true
 			})
 		}
-		sameStore := len(imports[0].Args) > 0 && len(news[0].Args) > 0 && exprKey(imports[0].Args[0]) == exprKey(news[0].Args[0])
+		sameStore := len(imports[0].Args) > 0 && len(news[0].Args) > 0 && f.KeyAt(imports[0].Args[0], ipt) == f.KeyAt(news[0].Args[0], npt)
 		hasher := func(c *ast.CallExpr) bool {
 			for _, a := range c.Args {
 				if ce, ok := ast.Unparen(a).(*ast.CallExpr); ok && strings.HasSuffix(exprKey(ce.Fun), "WithValueHasher") && len(ce.Args) == 1 && isNil(info, ce.Args[0]) {
